@@ -223,6 +223,9 @@ EDITS = [
     ("m27", "harmful", "Mean.on_old: totals decayed by the count", [(MEAN_OLD_IF, MEAN_OLD_IF.replace("totals - old.sum()", "totals - old.count()"))]),
     ("m29", "harmful", "Count.on_new: `acc += ...` (on a DataFrame stream acc is a Series: the previous state is updated in place)",
      [("        result = acc + new.count()\n        return result, result", "        acc += new.count()\n        return acc, acc")]),
+    ("m30", "harmful", "Var.__init__: ddof shifted by one", [("    def __init__(self, ddof=1):\n        self.ddof = ddof\n", "    def __init__(self, ddof=1):\n        self.ddof = ddof + 1\n")]),
+    ("m31", "harmful", "Sum.on_old: the state is updated in place (`acc[:] = ...`) on a DataFrame stream",
+     [("        result = acc - old.sum()\n        return result, result", "        result = acc - old.sum()\n        if not isinstance(acc, Number):\n            acc[:] = 0\n        return result, result")]),
     ("m28", "harmful", "Sum.on_new: `if len(new)` guard dropped (a batch without columns poisons the state)", [(SUM_NEW, """        result = acc + new.sum()
         return result, result
 """)]),
